@@ -50,6 +50,7 @@ class DataSet:
     lattice: Optional[numpy.ndarray]  # (nv, 3) or None
     settings: dict = field(default_factory=dict)
     nm: int = 1
+    static_volumes: Optional[numpy.ndarray] = None   # volume column of the static table when it differs from the phonon file's
 
     @property
     def np_(self) -> int:
@@ -68,7 +69,7 @@ def birch_murnaghan_pressure(v, v0, b0, bp):
 
 def make_dataset(rng: numpy.random.Generator, nv: int = 6, nq: int = 2, na: int = 2,
                  system: Optional[str] = None, keys: Optional[List[str]] = None, lattice: bool = False,
-                 law: str = "power", settings: Optional[dict] = None) -> DataSet:
+                 law: str = "power", settings: Optional[dict] = None, static_mesh: str = "same") -> DataSet:
     v0 = float(rng.uniform(400.0, 700.0))
     vols = v0 * numpy.linspace(1.06, 0.86, nv)            # decreasing, strictly
     b0 = float(rng.uniform(150.0, 260.0)) / GPA_PER_RY_BOHR3
@@ -102,6 +103,8 @@ def make_dataset(rng: numpy.random.Generator, nv: int = 6, nq: int = 2, na: int 
     # static moduli (GPa), positive definite by construction: diagonally dominant orthotropic part + small couplings
     if keys is None:
         keys = list(SYSTEM_INDEPENDENT[system or "orthorhombic"])
+    # the static table may be tabulated on its own volume mesh (same number of rows, different values)
+    svols = vols if static_mesh == "same" else vols * numpy.linspace(0.985, 1.02, nv) * (1.0 + 0.004 * numpy.cos(numpy.arange(nv)))
     table = numpy.zeros((nv, len(keys)))
     for c, k in enumerate(keys):
         i, j = int(k[0]), int(k[1])
@@ -110,12 +113,12 @@ def make_dataset(rng: numpy.random.Generator, nv: int = 6, nq: int = 2, na: int 
         elif j <= 3: base = rng.uniform(80.0, 150.0)
         else: base = rng.uniform(-18.0, 18.0)
         expo = rng.uniform(1.5, 3.5)
-        table[:, c] = base * (vols[0] / vols) ** expo
+        table[:, c] = base * (vols[0] / svols) ** expo
     lat = None
     if lattice:
         ax = rng.uniform(0.8, 3.0, size=3)
         ex = rng.dirichlet([8.0, 8.0, 8.0])               # a_i ~ V^{e_i}, sum e_i = 1
-        lat = ax[None, :] * (vols[:, None] / vols[0]) ** ex[None, :]
+        lat = ax[None, :] * (svols[:, None] / vols[0]) ** ex[None, :]
     st = {
         "qha": {"input": "input01", "settings": {"T_MIN": 0, "DT": 100, "NT": 6, "DT_SAMPLE": 100, "P_MIN": 0,
                                                   "DELTA_P": 1.0, "DELTA_P_SAMPLE": 1.0, "NTV": 16, "order": 3,
@@ -130,7 +133,7 @@ def make_dataset(rng: numpy.random.Generator, nv: int = 6, nq: int = 2, na: int 
     return DataSet(nv=nv, nq=nq, na=na, volumes=vols, energies=energies, pressures=pressures, q_coords=q_coords,
                    weights=weights, freqs=freqs, omega0=omega0, gammas=gammas, static_keys=keys, static_table=table,
                    vref=float(vols[1] if nv > 1 else vols[0]), cellmass=float(rng.uniform(80.0, 400.0)), lattice=lat,
-                   settings=st)
+                   settings=st, static_volumes=(None if static_mesh == "same" else svols))
 
 
 def _deep_update(d, u):
@@ -165,7 +168,8 @@ def write_elast(path: str, ds: DataSet, prefix: str = "c", upper: bool = False):
         names = [(prefix + k).upper() if upper else prefix + k for k in ds.static_keys]
         fp.write("V " + " ".join(names) + "\n")
         for iv in range(ds.nv):
-            fp.write(repr(float(ds.volumes[iv])) + " " + " ".join(repr(float(x)) for x in ds.static_table[iv]) + "\n")
+            sv = ds.volumes if ds.static_volumes is None else ds.static_volumes
+            fp.write(repr(float(sv[iv])) + " " + " ".join(repr(float(x)) for x in ds.static_table[iv]) + "\n")
         if ds.lattice is not None:
             fp.write(" lattice_a lattice_b lattice_c\n")
             for iv in range(ds.nv):
